@@ -149,6 +149,8 @@ type State struct {
 	qbinders     []string // binders of the quantifiers being evaluated (spec evaluation)
 	ctxDoneChans map[string]Term
 	freshObjs    map[string]bool
+	aliases      map[string]string  // named constant -> the term it abbreviates
+	lastSent     map[string]Term    // channel term -> value of the last send on this path
 	locals       []string           // references of non-escaping local allocations (invisible to callees)
 	callResults  map[string][]Value // "<callee>#<site ordinal>" -> results of that call on this path
 }
@@ -167,6 +169,8 @@ func NewState() *State {
 		ctxDoneChans: map[string]Term{},
 		freshObjs:    map[string]bool{},
 		callResults:  map[string][]Value{},
+		lastSent:     map[string]Term{},
+		aliases:      map[string]string{},
 	}
 }
 
@@ -210,6 +214,14 @@ func (s *State) Clone() *State {
 	}
 	c.heldLocks = append([]string(nil), s.heldLocks...)
 	c.ctxDoneChans = s.ctxDoneChans
+	c.aliases = make(map[string]string, len(s.aliases))
+	for k, v := range s.aliases {
+		c.aliases[k] = v
+	}
+	c.lastSent = make(map[string]Term, len(s.lastSent))
+	for k, v := range s.lastSent {
+		c.lastSent[k] = v
+	}
 	c.locals = append([]string(nil), s.locals...)
 	c.callResults = make(map[string][]Value, len(s.callResults))
 	for k, v := range s.callResults {
